@@ -1,7 +1,91 @@
-(* C02 -- RTMP reader decodes every spec-conformant chunk stream. *)
-From Verif Require Import Lib.Base Lib.Sx Model.RtmpChunk.
+(* C02 -- the RTMP reader decodes every spec-conformant chunk stream.
+   The reference chunker (spec_step / spec_run / ref_chunk in Model/RtmpChunk.v) is written from
+   RTMP 1.0 section 5.3, independently of the library's writer: a plan chooses, chunk by chunk,
+   the chunk stream (ids 2..65599), the basic header form (1/2/3 bytes), the message header type
+   (0/1/2/3) and thereby the interleaving of unfinished messages of different chunk streams; Set
+   Chunk Size messages in the message list change the chunk size for the following chunks.
+   [legal plan msgs] are the specification's side conditions (type 0 at the start of a chunk
+   stream; type 1 only with unchanged stream id and non-decreasing time; type 2 additionally
+   unchanged length and type; type 3 for a new message additionally unchanged delta; type 3 on
+   continuation chunks; extended timestamp present iff the 3-byte field is 0xFFFFFF and repeated
+   on type-3 chunks; basic header form legal for the id; well-formed protocol control bodies; no
+   Abort; every message finished).
+   Proofs are in Proofs/RtmpSpec.v. *)
+From Verif Require Import Lib.Base Lib.Sx Model.RtmpChunk Proofs.RtmpChunk Proofs.RtmpChunkRT Proofs.RtmpSpec.
 Open Scope N_scope.
 
-Example c02_smoke : legal [mkstep 3 1 0 0] [mkmsg 3 0 9 1 [1;2;3]] = true.
-Proof. vm_compute. reflexivity. Qed.
-Print Assumptions c02_smoke.
+(* For every legal plan over every message list -- all header types, timestamp deltas, extended
+   timestamps on type-0 headers and their repetition on type-3 continuation chunks, any number
+   of interleaved chunk streams, Set Chunk Size in between -- and every segmentation [segs] of
+   the chunker's bytes into transport reads, the peer's read loop (ReadMessage until the first
+   error) yields exactly the chunked messages in completion order with the specification's
+   timestamps reduced to 31 bits, then a clean io.EOF.
+   PARTIAL: guarded by [no_ext_delta] -- no message-starting chunk of type 1/2 has a delta
+   >= 0xFFFFFF and no message-starting type-3 chunk follows a header with extended timestamp.
+   Without the guard the statement is false for the code as it is (c02_ext_delta_refuted,
+   known finding ext-ts-delta). *)
+Theorem c02_decode_partial plan msgs segs fuel :
+  legal plan msgs = true -> no_ext_delta plan msgs = true ->
+  flat segs = ref_chunk plan msgs -> (length plan < fuel)%nat ->
+  read_all fuel rs0 segs [] = (completion_order plan msgs, E_EOF).
+Proof. exact (decode_partial plan msgs segs fuel). Qed.
+
+(* the same, chunk by chunk and from any related pair of sender / reader states: one chunk of the
+   reference chunker is consumed by exactly one iteration of the ReadMessage loop, which returns
+   the message the chunk completes (if any) and stays in simulation *)
+Theorem c02_chunk_simulation sd st s w om sd' (x : bytes) (rest : inp) :
+  R sd s -> spec_step sd st = (w, om, true, sd') -> guard_step sd st = true ->
+  exists s', read_chunk s ((w ++ x) :: rest) = Ok (om, s', x :: rest) /\ R sd' s'.
+Proof. exact (sim_step sd st s w om sd' x rest). Qed.
+
+(* Rejection, over ARBITRARY prior reader state and whatever bytes follow: the three rules the
+   reader relies on give an error, never a message. *)
+(* (a) a type-0 header on a chunk stream whose message is unfinished *)
+Theorem c02_reject_type0_inside_message s i cid i1 fuel :
+  read_basic_header i = Ok (0, cid, i1) -> c_part (get_chunk (chunks s) cid) <> None ->
+  read_message (S fuel) s i = Err E_EXISTS.
+Proof. exact (reject_type0_inside s i cid i1 fuel). Qed.
+(* (b) a type-1 header inside an unfinished message announcing a different length *)
+Theorem c02_reject_length_change s i cid i1 i2 d0 d1 d2 l0 l1 l2 ty fuel :
+  read_basic_header i = Ok (1, cid, i1) ->
+  stake i1 7 = Ok ([d0; d1; d2; l0; l1; l2; ty], i2) ->
+  c_part (get_chunk (chunks s) cid) <> None -> c_count (get_chunk (chunks s) cid) <> 0 ->
+  ube3 l0 l1 l2 <> h_len (c_hdr (get_chunk (chunks s) cid)) ->
+  read_message (S fuel) s i = Err E_SIZE.
+Proof. exact (reject_length_change s i cid i1 i2 d0 d1 d2 l0 l1 l2 ty fuel). Qed.
+(* (c) a chunk stream never seen before that does not start with type 0, other than the
+   documented librtmp form (chunk stream 2, type 1) *)
+Theorem c02_reject_fresh_not_type0 s i fmt cid i1 fuel :
+  read_basic_header i = Ok (fmt, cid, i1) -> c_count (get_chunk (chunks s) cid) = 0 ->
+  fmt <> 0 -> ~ (cid = 2 /\ fmt = 1) ->
+  read_message (S fuel) s i = Err E_FRESH.
+Proof. exact (reject_fresh_not_type0 s i fmt cid i1 fuel). Qed.
+
+(* The recorded finding: a legal plan (type 0 at 1000 ms, then type 1 with delta 0x1000000 on
+   chunk stream 3) whose second message the reader reports at 16777216 instead of 16778216. *)
+Theorem c02_ext_delta_refuted :
+  exists plan msgs,
+    legal plan msgs = true /\
+    fst (read_all 10 rs0 [ref_chunk plan msgs] []) <> completion_order plan msgs /\
+    no_ext_delta plan msgs = false.
+Proof. exact ext_delta_refuted. Qed.
+
+(* non-vacuity: a legal, guard-satisfying plan using all four header types, two interleaved chunk
+   streams (ids 3 and 320, 1- and 3-byte basic headers), an extended timestamp on a type-0 header
+   repeated on its type-3 continuation chunk, and a Set Chunk Size *)
+Example c02_decode_nonvacuous :
+  let msgs := [mkmsg 3 16777300 9 1 (repeat 7 130); mkmsg 320 5 8 1 [1; 2]; mkmsg 2 0 1 0 [0; 0; 0; 64];
+               mkmsg 320 25 8 1 [3; 4; 5]; mkmsg 320 45 8 1 [6; 7; 8]; mkmsg 320 65 8 1 [9; 9; 9]] in
+  let plan := [mkstep 3 1 0 0; mkstep 320 3 0 0; mkstep 3 1 3 0; mkstep 2 1 0 0; mkstep 320 3 1 0;
+               mkstep 320 3 2 0; mkstep 320 3 3 0] in
+  legal plan msgs = true /\ no_ext_delta plan msgs = true /\
+  read_all 20 rs0 (map (fun b => [b]) (ref_chunk plan msgs)) [] = (completion_order plan msgs, E_EOF) /\
+  length (completion_order plan msgs) = 6%nat.
+Proof. vm_compute. repeat split. Qed.
+
+Print Assumptions c02_decode_partial.
+Print Assumptions c02_chunk_simulation.
+Print Assumptions c02_reject_type0_inside_message.
+Print Assumptions c02_reject_length_change.
+Print Assumptions c02_reject_fresh_not_type0.
+Print Assumptions c02_ext_delta_refuted.
